@@ -38,6 +38,29 @@ pub fn channels<T: DeserializeOwned + Serialize + 'static>(text: &str) -> Vec<(&
 
 fn case<T: DeserializeOwned + Serialize + 'static>(sink: &mut Sink, r: &mut Rng, ty: &str, doc: &Value) {
     let texts = vec![("compact", doc.to_string()), ("pretty", serde_json::to_string_pretty(doc).unwrap()), ("respelled", spell(doc, r)), ("respelled2", spell(doc, r))];
+    // texts that are not one JSON document: every channel must reject them alike (each group is
+    // compared within itself: `reference` is reset)
+    let c = doc.to_string();
+    let trail = *r.pick(&[" null", "}", "]", ",", "\u{0}", " x", "\n\n{}", "[]", "\"\"", "0"]);
+    let mut cut = c.clone();
+    cut.pop();
+    let odd = vec![
+        ("trailing-bytes", format!("{}{}", c, trail)),
+        ("two-documents", format!("{}{}", c, c)),
+        ("truncated", cut),
+        ("trailing-whitespace", format!("{} \n\t\r", c)),
+        ("leading-bom", format!("\u{feff}{}", c)),
+    ];
+    for (sp, text) in &odd {
+        let ans = channels::<T>(text);
+        let replay = format!("decode {} {} {}", ty, sp, hex(text.as_bytes()));
+        let first = ans[0].1.clone();
+        for (ch, a) in &ans {
+            sink.oracle(a != "PANIC", "decoder panicked", &replay);
+            sink.oracle(*a == first, &format!("{}: {} decides differently than from_str on a text that is not exactly one document ({})", ty, ch, sp), &replay);
+        }
+        sink.stat(&format!("{}/{}/{}", ty, sp, if first == "reject" { "reject" } else { "accept" }));
+    }
     let mut reference: Option<String> = None;
     for (sp, text) in &texts {
         let ans = channels::<T>(text);
